@@ -27,12 +27,16 @@ fn err_name(e: &MmapRegionError) -> &'static str {
 pub struct BuildWorld {
     /// an aligned mapping of the harness's own, used as the "externally provided" pointer
     ext: *mut u8,
+    /// one long-lived backing file whose length changes between requests, and one `FileOffset` per start offset
+    /// that is cloned for every request that reuses it (a validation must look at the file as it is *now*)
+    shared_file: std::sync::Arc<std::fs::File>,
+    shared_off: std::collections::HashMap<u64, FileOffset>,
 }
 
 impl BuildWorld {
     pub fn new() -> Self {
         let p = unsafe { libc::mmap(std::ptr::null_mut(), 8192, libc::PROT_READ | libc::PROT_WRITE, libc::MAP_ANONYMOUS | libc::MAP_PRIVATE, -1, 0) };
-        BuildWorld { ext: p as *mut u8 }
+        BuildWorld { ext: p as *mut u8, shared_file: std::sync::Arc::new(crate::streams::tmpfile_pub()), shared_off: std::collections::HashMap::new() }
     }
 
     /// runs one request; returns (observation without the kernel field, kernel accepted?)
@@ -75,10 +79,18 @@ impl BuildWorld {
         let mut b = MmapRegionBuilder::<()>::new(size).with_mmap_prot(prot).with_mmap_flags(flags);
         let mut keep_file = None;
         if let Some((flen, fstart)) = file {
-            let f = crate::streams::tmpfile_pub();
-            f.set_len(flen).unwrap();
-            keep_file = Some(f.try_clone().unwrap());
-            b = b.with_file_offset(FileOffset::new(f, fstart));
+            if kv.n("reuse") == 1 {
+                self.shared_file.set_len(flen).unwrap();
+                keep_file = Some(self.shared_file.try_clone().unwrap());
+                let sf = self.shared_file.clone();
+                let fo = self.shared_off.entry(fstart).or_insert_with(|| FileOffset::from_arc(sf, fstart)).clone();
+                b = b.with_file_offset(fo);
+            } else {
+                let f = crate::streams::tmpfile_pub();
+                f.set_len(flen).unwrap();
+                keep_file = Some(f.try_clone().unwrap());
+                b = b.with_file_offset(FileOffset::new(f, fstart));
+            }
         }
         if let Some(off) = raw {
             b = unsafe { b.with_raw_mmap_pointer(self.ext.wrapping_add(off)) };
@@ -116,7 +128,9 @@ impl BuildWorld {
                     rec.fail("C15", "k.build/reports-request", line);
                 }
                 // shared file mapping: byte i of the region is byte offset+i of the file, both directions
-                if let (Some((_, fstart)), Some(f), true, None) = (file, keep_file.as_ref(), flags & libc::MAP_SHARED != 0 && prot & libc::PROT_WRITE != 0 && prot & libc::PROT_READ != 0, raw) {
+                // (only when the range really lies inside the file: touching a mapping past EOF is a SIGBUS, and a region that
+                //  was wrongly accepted has been reported above)
+                if let (Some((_, fstart)), Some(f), true, None) = (file, keep_file.as_ref(), want == "kernel" && flags & libc::MAP_SHARED != 0 && prot & libc::PROT_WRITE != 0 && prot & libc::PROT_READ != 0, raw) {
                     let vs = r.as_volatile_slice();
                     for &i in &[0usize, 1, 4095, 4096, size.saturating_sub(1)] {
                         if i >= size {
@@ -183,6 +197,8 @@ pub fn run(rec: &mut Rec, rng: &mut Rng, n: usize) {
         if raw != "none" && rng.chance(1, 2) {
             flags |= libc::MAP_FIXED as u64; // raw pointers skip the MAP_FIXED check
         }
-        go(&mut w, rec, format!("k.build size={} prot={} flags={} flen={} fstart={} raw={} page=4096", size, prot, flags, flen, fstart, raw));
+        // a third of the file-backed requests go through the long-lived file, whose length keeps changing
+        let reuse = (flen != "none" && rng.chance(1, 3)) as u8;
+        go(&mut w, rec, format!("k.build size={} prot={} flags={} flen={} fstart={} raw={} page=4096 reuse={}", size, prot, flags, flen, fstart, raw, reuse));
     }
 }
